@@ -49,11 +49,14 @@ func tableMaxN(L *LState) int {
 
 func tableRemove(L *LState) int {
 	tbl := L.CheckTable(1)
-	if L.GetTop() == 1 {
-		L.Push(tbl.Remove(tbl.Len()))
-	} else {
-		L.Push(tbl.Remove(L.CheckInt(2)))
+	n := tbl.Len()
+	pos := L.OptInt(2, n)
+	if pos < 1 || pos > n {
+		// a position outside the list (also any position of an empty list):
+		// nothing is removed and nothing is returned
+		return 0
 	}
+	L.Push(tbl.Remove(pos))
 	return 1
 }
 
